@@ -27,6 +27,7 @@
 
 #include <limits.h>
 #include <iconv.h>
+#include <errno.h>
 
 #include "misc.h"
 #include "lang.h"
@@ -286,6 +287,11 @@ print_unicode(iconv_t cd, int endian, int unicode, char **p, int n)
 	li = sizeof(in); lo = n;
 
 	r = iconv(cd, &ip, &li, &op, &lo);
+
+	/* Not enough space: fail as documented instead of
+	   printing a space in place of the character. */
+	if ((size_t) -1 == r && E2BIG == errno)
+		goto error;
 
 	if ((size_t) -1 == r
 	    || (**p == 0x40 && unicode != 0x0040)) {
